@@ -50,6 +50,8 @@ func init() {
 				New: "\t\t\tedgeFact = pred.out[edge.i]"},
 			{Name: "dense-dequeue-keeps-bit", File: "analysis/dfa/dense/forward.go", Rule: "R13.3", KeyPart: "dequeue",
 				Old: "\th.inQueue[nid/64] &^= 1 << (nid % 64)\n", New: ""},
+			{Name: "sparse-phis-not-seeded", File: "analysis/dfa/sparse/dfa.go", Rule: "R13.4", KeyPart: "all-instructions-initially-enqueued",
+				Old: "\t\tfor _, instr := range b.Instrs {\n\t\t\tworklist[instr] = struct{}{}\n", New: "\t\tfor _, instr := range b.Instrs {\n\t\t\tif _, isPhi := instr.(*ir.Phi); isPhi {\n\t\t\t\tcontinue\n\t\t\t}\n\t\t\tworklist[instr] = struct{}{}\n"},
 			{Name: "sparse-wrong-referrers", File: "analysis/dfa/sparse/dfa.go", Rule: "R13.4", KeyPart: "Forward",
 				Old: "\t\t\t\tif refs := d.Value.Referrers(); refs != nil {\n\t\t\t\t\tfor _, ref := range *refs {\n\t\t\t\t\t\tworklist[ref] = struct{}{}\n\t\t\t\t\t}\n\t\t\t\t}",
 				New: "\t\t\t\tfor _, ref := range *instr.Referrers() {\n\t\t\t\t\tworklist[ref] = struct{}{}\n\t\t\t\t}"},
@@ -673,7 +675,43 @@ func runC13(c *Ctx) {
 				initAll = true
 			}
 		})
-		c.Check(FuncKey(fwd)+"::all-instructions-initially-enqueued", fwd.Pos(), initAll, "the worklist starts with every instruction of every block")
+		// … unconditionally: every element read from a block's instruction list goes into the worklist before the
+		// next one is read. Values given an initial state with Set (parameters, constants) never change and so never
+		// re-enqueue their users; an instruction that is left out at the start (a φ over parameters, say) is then
+		// never evaluated at all.
+		skipPath := ""
+		Instrs(fwd, false, func(in ssa.Instruction) {
+			ld, ok := in.(*ssa.UnOp)
+			if !ok || ld.Op != token.MUL {
+				return
+			}
+			ia, ok := ld.X.(*ssa.IndexAddr)
+			if !ok || !AddrFrom(ia.X, IsFieldOf("BasicBlock", "Instrs")) {
+				return
+			}
+			t, path := PathAvoiding(fwd, ld, func(x ssa.Instruction) bool {
+				if _, isRet := x.(*ssa.Return); isRet {
+					return true
+				}
+				if x == ssa.Instruction(ld) {
+					return true
+				}
+				// reaching the solver loop proper (the first read of the worklist's length / a map range) also ends the seeding
+				if r, isRange := x.(*ssa.Range); isRange {
+					_ = r
+					return true
+				}
+				return false
+			}, func(x ssa.Instruction) bool {
+				mu, ok := x.(*ssa.MapUpdate)
+				return ok && !isMappingUpd(x) && Derives(mu.Key, func(v ssa.Value) bool { return v == ssa.Value(ld) })
+			}, nil)
+			if t != nil {
+				initAll = false
+				skipPath = PathString(fwd, path)
+			}
+		})
+		c.Check(FuncKey(fwd)+"::all-instructions-initially-enqueued", fwd.Pos(), initAll, "the worklist starts with every instruction of every block, whatever its kind (values with a preset state never re-enqueue their users, so an instruction that is not seeded may never be evaluated); path that skips one: %s", skipPath)
 		// the update happens only when the state changed
 		changed := ComplementEdges(CallTrueEdges(fwd, func(call *ssa.Call) bool { return call.Call.IsInvoke() && call.Call.Method.Name() == "Equals" }))
 		ok, p := MustPassEdges(fwd, upd, changed)
